@@ -363,7 +363,7 @@ def path_confined(ctx: Ctx, v: LocalView, rule: str) -> int:
                 for call in [x for x in h_.own_nodes() if isinstance(x, ast.Call)]:
                     fs, _ = prog.callees(h_, call, ctx._types)
                     for g in fs:
-                        if (f_cls(g) is v.cls or g.cls is None) and g.module is f.module and g not in funcs:
+                        if (f_cls(g) is v.cls or g.cls is None) and (g.module is f.module or (g.module.name.startswith("dds") and g.name.startswith("_"))) and g not in funcs:
                             funcs.append(g)
                             nxt.append(g)
             frontier = nxt
